@@ -24,7 +24,8 @@ type AbsCfg struct {
 }
 
 // Concretise maps abstract method / cipher names to real ones. bName is the
-// concrete member chosen for the usable method "B" (TOKEN or IDTOKENS).
+// concrete member chosen for the usable method "B" (TOKEN or IDTOKENS); the
+// usable method "C" is then the other spelling.
 func Concretise(a AbsCfg, bName string) Config {
 	if bName == "" {
 		bName = "TOKEN"
@@ -37,6 +38,12 @@ func Concretise(a AbsCfg, bName string) Config {
 				out = append(out, "CLAIMTOBE")
 			case "B":
 				out = append(out, bName)
+			case "C": // the other spelling of the token method (same wire bit, different name)
+				if bName == "IDTOKENS" {
+					out = append(out, "TOKEN")
+				} else {
+					out = append(out, "IDTOKENS")
+				}
 			case "U":
 				out = append(out, "PASSWORD") // declared, not implemented
 			case "X":
@@ -74,7 +81,7 @@ func ConcreteMethod(x, bName string) string {
 
 func kindOfMethod(m string) string {
 	switch m {
-	case "A", "B":
+	case "A", "B", "C":
 		return "usable"
 	case "U":
 		return "unimpl"
